@@ -181,6 +181,9 @@ pub struct ChainProg {
     pub options: String,
     /// (nested invocation text, plain-Rust text) pairs, outermost last
     pub nest_pairs: Vec<(String, String)>,
+    /// the invocation is produced by a `macro_rules!` wrapper that receives the `let` names as
+    /// `ident` metavariables (macro side only)
+    pub mr_wrap: bool,
 }
 
 pub struct CG<'a> {
@@ -325,6 +328,12 @@ impl<'a> CG<'a> {
         self.maybe_cap(core, allow_cap)
     }
     fn maybe_cap(&mut self, core: String, allow_cap: bool) -> String {
+        // a parenthesised block is an ordinary expression, not a block operand: it is evaluated in
+        // place (inside a wrapper: whenever the wrapper's closure runs), like in the documented chain
+        if rb(self.rng, self.caps * 0.25) {
+            let cid = self.id();
+            return format!("({{ cap({}); {} }})", cid, core);
+        }
         if allow_cap && rb(self.rng, self.caps) {
             let cid = self.id();
             format!("{{ cap({}); {} }}", cid, core)
